@@ -456,3 +456,16 @@ META["C16"] = {"engine": "builder-family", "design_ref": "DESIGN.md 5/C16",
             "and AppendPrepends must be refuted.",
     "note": _BUILDER_NOTE + "; documents carry no priority / delete tags (those are C03/C04); operator targets are mapping paths"}
 NOT_APPLICABLE = {}
+
+
+# ---------------------------------------------------------------------------
+# stand-alone check modules: harness/cNN.py exposing PROP, run(prop, tier, seed, replay, keep), META and (optionally) ENGINE
+import importlib
+for _i in range(1, 21):
+    _name = "c%02d" % _i
+    if os.path.exists(os.path.join(HERE, _name + ".py")):
+        _m = importlib.import_module(_name)
+        CHECKS[_m.PROP] = _m.run
+        META[_m.PROP] = _m.META
+        if getattr(_m, "ENGINE", None):
+            ENGINES.append(_m.ENGINE)
